@@ -135,9 +135,9 @@ pub fn alphabet(table: &Table, f: &FieldDef, budget: usize) -> Vec<Val> {
         Enc::Raw => [0usize, 1, 127, 128, 255, 256, 1068].iter().map(|n| Val::Bytes((0..*n).map(|i| (i * 31 + 7) as u8).collect())).collect(),
         Enc::Dt => {
             let mut out = vec![];
-            for y in [2023, 1, 999, 2024, 9999] {
+            for y in [2023, 1, 999, 2024, 9999, 2020, 2021, 2026] {
                 for m in 1..=12u32 {
-                    for d in [1u32, 28, 29, 30, 31] {
+                    for d in [1u32, 2, 3, 28, 29, 30, 31] {
                         if !valid_date(y, m, d) {
                             continue;
                         }
@@ -408,4 +408,52 @@ pub fn enumerate_visit(table: &Table, ty: &TypeDef, budget: usize, first: Option
         }
     }
     cur[first] = saved;
+}
+
+
+/// Paths to every repeated field (through nested structs); for the rows with many items.
+pub fn repeated_fields(table: &Table, ty: &TypeDef) -> Vec<Vec<usize>> {
+    let mut out = vec![];
+    for (i, f) in ty.fields.iter().enumerate() {
+        if f.wrap == Wrap::Vec {
+            out.push(vec![i]);
+        } else if let Enc::Nested(n) = &f.enc {
+            for mut p in repeated_fields(table, table.get(n)) {
+                p.insert(0, i);
+                out.push(p);
+            }
+        }
+    }
+    out
+}
+
+/// Baseline value in which the repeated field at `path` holds `n` items (containers on the way
+/// made present).
+pub fn repeated(table: &Table, ty: &TypeDef, path: &[usize], n: usize) -> Val {
+    let mut v = baseline(table, ty);
+    fn set(table: &Table, ty: &TypeDef, v: &mut Val, path: &[usize], n: usize) {
+        let f = &ty.fields[path[0]];
+        if path.len() == 1 {
+            let a: Vec<Val> = match &f.enc {
+                Enc::Nested(nm) => {
+                    let nt = table.get(nm);
+                    vec![all_present(table, nt, 1, 1), all_present(table, nt, 2, 1), baseline(table, nt)]
+                }
+                _ => alphabet(table, f, 0),
+            };
+            v.fields_mut()[path[0]] = Val::List((0..n).map(|i| a[(i * 7 + 1) % a.len()].clone()).collect());
+            return;
+        }
+        let Enc::Nested(nm) = &f.enc else { unreachable!() };
+        let nt = table.get(nm);
+        let mut nv = baseline(table, nt);
+        set(table, nt, &mut nv, &path[1..], n);
+        v.fields_mut()[path[0]] = match f.wrap {
+            Wrap::Bare => nv,
+            Wrap::Opt => Val::some(nv),
+            Wrap::Vec => Val::List(vec![nv]),
+        };
+    }
+    set(table, ty, &mut v, path, n);
+    v
 }
